@@ -101,7 +101,7 @@ def verify_function(c: Contract, registry: Dict[str, Contract]) -> FunctionResul
     try:
         st = initial_state(ex, fi, c)
         env = dict(st.locals)
-        for r in c.requires:
+        for r in c.requires + c.definitions:
             st.assume(ex.spec_bool(st, r, dict(st.locals), fi))
         entry = st.fork()
         st.old = entry
